@@ -157,3 +157,61 @@ Proof.
       with (x ++ "_" ++ String.concat "_" ((y :: l) ++ [z])).
     apply G. apply IH; [auto | discriminate].
 Qed.
+
+(* ---- the base of re-shuffle task names, in both namings ---- *)
+Lemma append_nonempty_r : forall s t, t <> "" -> s ++ t <> "".
+Proof. intros [|a s] t H; simpl; [auto|discriminate]. Qed.
+
+Lemma clean_shuffle_base : forall inv fixed op, clean (shuffle_base inv fixed op).
+Proof.
+  intros inv fixed op. unfold shuffle_base, shuffle_base_inv, shuffle_base_old.
+  destruct (cfg_named_by_inv fixed); [|apply clean_shuffle].
+  assert (N1 : op ++ "_shuffle" <> "") by (apply append_nonempty_r; discriminate).
+  assert (N2 : "_" ++ op ++ "_shuffle" <> "") by discriminate.
+  assert (N3 : decN inv ++ "_" ++ op ++ "_shuffle" <> "") by (apply append_nonempty_r; exact N2).
+  apply clean_app_r; [exact N3|]. apply clean_app_r; [exact N2|].
+  apply clean_app_r; [exact N1|]. apply clean_shuffle.
+Qed.
+
+(* ---- operation names carry the invocation index ---- *)
+Definition inv_prefix (inv : N) : string := "inv" ++ decN inv ++ "_".
+Definition prefixed (inv : N) (s : string) : Prop := exists rest, s = inv_prefix inv ++ rest.
+
+Lemma prefixed_render inv b c : prefixed inv b -> prefixed inv (render b c).
+Proof. intros [rest ->]. rewrite render_suffix, append_assoc. now exists (rest ++ suffix c). Qed.
+
+Lemma prefixed_shuffle_base_inv inv op : prefixed inv (shuffle_base_inv inv op).
+Proof.
+  unfold shuffle_base_inv, prefixed, inv_prefix. exists (op ++ "_shuffle").
+  now rewrite !append_assoc.
+Qed.
+
+Lemma decN_digits n : all_digits (decN n) = true.
+Proof. apply string_of_uint_digits. Qed.
+
+Lemma decN_inj n m : decN n = decN m -> n = m.
+Proof.
+  unfold decN; intro E.
+  assert (Some (N.to_uint n) = Some (N.to_uint m)) as E'.
+  { rewrite <- !NilEmpty.usu. now rewrite E. }
+  inversion E' as [E2].
+  rewrite <- (DecimalN.Unsigned.of_to n), <- (DecimalN.Unsigned.of_to m). now rewrite E2.
+Qed.
+
+Lemma digits_underscore_split : forall d1 d2 x y,
+  all_digits d1 = true -> all_digits d2 = true -> d1 ++ "_" ++ x = d2 ++ "_" ++ y -> d1 = d2.
+Proof.
+  induction d1 as [|a d1 IH]; intros [|b d2] x y D1 D2 E; simpl in *; auto.
+  - inversion E; subst. apply andb_true_iff in D2 as [D _]. discriminate.
+  - inversion E; subst. apply andb_true_iff in D1 as [D _]. discriminate.
+  - inversion E; subst. apply andb_true_iff in D1 as [_ D1]. apply andb_true_iff in D2 as [_ D2].
+    f_equal. eapply IH; eauto.
+Qed.
+
+(* names of different invocations never coincide *)
+Theorem prefixed_disjoint : forall i j s, prefixed i s -> prefixed j s -> i = j.
+Proof.
+  intros i j s [x ->] [y E]. unfold inv_prefix in E. rewrite !append_assoc in E.
+  simpl in E. inversion E as [E'].
+  apply decN_inj. eapply digits_underscore_split; eauto using decN_digits.
+Qed.
